@@ -132,7 +132,37 @@ def run_gc_roots(prog, tier, repo):
                               f'module map it also hands over: modules outside that list are never re-marked, the sweeper reclaims '
                               f'their long identifiers while they are still referenced, and later requests abort or name '
                               f'resolution silently diverges from a fresh analysis')
+    # ... and the module list is queued for marking on every path through the GC: the loop calling the heap's queueing
+    # operation for the elements of that list must lie on every path from the entry of the function it is in to its return
+    # (a test of the heap's own state in front of it leaves modules edited during a running mark cycle unqueued).
+    from ..cfg import cfg_of
+    nq = 0
+    for b in sorted(prog.bodies.values(), key=lambda x: x.name):
+        if b.crate != 'samlang_services' or b.kind == 'closure' or '::tests' in b.name:
+            continue
+        qs = [bi for bi, bl in enumerate(b.blocks) if not bl.cleanup and bl.term[0] == 'call'
+              and (callee(bl.term)[1] or '').endswith('Heap::add_unmarked_module_reference')]
+        if not qs:
+            continue
+        lists = [i for i in range(1, b.nargs + 1) if b.locals[i].s.startswith('std::vec::Vec<') and 'ModuleReference' in b.locals[i].s]
+        if not lists:
+            continue
+        nq += 1
+        cfg = cfg_of(b)
+        # the loop head driving the queueing: the `next()` call whose loop contains the queue call
+        heads = [bi for bi, bl in enumerate(b.blocks) if not bl.cleanup and bl.term[0] == 'call'
+                 and (callee(bl.term)[1] or '').split('::')[-1] == 'next'
+                 and any(q in cfg.reachable(bi) and bi in cfg.reachable(q) for q in qs)]
+        key = f'gc-requeue:{b.name}'
+        if heads and cfg.nodes_postdominate(heads, 0) and cfg.nodes_dominate(heads, cfg.exits[0] if cfg.exits else 0):
+            res.ok(key, b.loc(b.blocks[qs[0]].term[7]), 'the module list is queued for marking on every path')
+        else:
+            res.violation(key, b.loc(b.blocks[qs[0]].term[7]), f'{b.name} queues the module list for marking only on some paths: on the '
+                          f'others (a mark cycle still in progress) a module edited since it was marked is not queued again, the '
+                          f'strings its new text allocated stay unmarked, the sweep that ends the cycle reclaims them while the '
+                          f'module still refers to them, and the next request printing it aborts')
     res.floor('GC driver call sites', n, 1)
+    res.floor('functions queueing the module list', nq, 1)
     return [res]
 
 
